@@ -69,7 +69,7 @@ def run_scenario_once(args, per_check_ms):
         w = World(prog, spec['scen'], cap=spec.get('cap', 3)); w.build()
         sol = IncSolver(per_check_ms=per_check_ms)
         w.m.pruner = sol
-        w.run(R=spec['R'], B=spec['B'], order=spec.get('order'), seq=spec.get('seq'))
+        w.run(R=spec['R'], B=spec['B'], order=spec.get('order'), seq=spec.get('seq'), verbose=bool(os.environ.get('VERIF_VERBOSE')))
         out['encode_s'] = round(time.time() - t0, 2)
         out['stats'] = dict(nodes=nodes(), steps=w.m.stats['steps'], blocks=w.m.stats['blocks'], stmts=w.m.stats['stmts'],
                             sites=len(w.m.stats['sites']), pruned=w.m.stats.get('pruned', 0), prune_checks=sol.nchecks,
